@@ -10,4 +10,7 @@ _W = {'technique': MS, 'engine': 'mirsym',
       'note': 'Trusted: rustc MIR, library models of fixed/core (validated per run against the native functions on seeded inputs), z3, SPL token semantics. Whole-history claim follows by induction over operations, which is an argument, not a query.'}
 for _p in ('C01', 'C02', 'C03', 'C16', 'C17'):
     CHECKS[_p] = dict(_W)
+CHECKS['C20'] = {'technique': MS, 'engine': 'mirsym',
+    'text': 'Bounded symbolic verification: the conversion functions of the type crate and of the Kamino/Solend/Drift mocks crates are executed symbolically from their own MIR; exactness, direction of rounding, fail-closed overflow and round trips are decided by z3 for all integer inputs.',
+    'note': 'Trusted: rustc MIR, library models, z3. Reserve-level wrappers that only delegate to the proven functions are covered through them; staleness of the venue itself is the venue program\'s business.'}
 NOT_APPLICABLE = {}
